@@ -79,6 +79,12 @@ SyncLaw(w) ==
                /\ w.space[w.verdict.idx] = 0
                /\ \A j \in 1 .. (w.verdict.idx - 1) : w.space[j] > 0
 
+SatisfiedWait(w) ==
+  /\ w.verdict.kind = "wait" /\ w.verdict.side \in {"in", "out"}
+  /\ IF w.verdict.side = "in"
+     THEN w.verdict.idx \in 1 .. Len(w.avail) /\ w.avail[w.verdict.idx] - w.consumed[w.verdict.idx] >= w.verdict.need
+     ELSE w.verdict.idx \in 1 .. Len(w.space) /\ w.space[w.verdict.idx] - w.produced[w.verdict.idx] >= w.verdict.need
+
 TWork(w) ==
   /\ w.ev = "work"
   /\ Chk(NoCrash(w), "panic")
@@ -97,6 +103,11 @@ TWork(w) ==
   \* counter-probe: everything but the awaited stream was provided; progress
   \* now means the block had named the wrong stream.
   /\ Chk((cprobe /\ lastW # NoW) => ~Moved(w), "misdirected")
+  \* a wait that was already satisfied when it was reported (the stream named held at
+  \* least what was asked for right after the call): with nothing provided in between,
+  \* the following call must make progress (a change of mind does not count: the block
+  \* named a stream that was not what kept it from working)
+  /\ Chk((~envSince /\ lastW # NoW /\ SatisfiedWait(lastW)) => Moved(w), "satisfied_wait")
   /\ Chk(Flag(hdr, "sync") => SyncLaw(w), "synclaw")
   \* C16: an infinite source never reports EOF
   /\ Chk(Flag(hdr, "infinite") => w.verdict.kind # "eof", "eof_infinite")
